@@ -417,6 +417,16 @@ def run(pid, tier):
         neg = V.tlc('MC_StreamWS', cfgname, workers=4, deque=False, timeout=600)
         if what not in neg['out']:
             raise V.Infra('MC_StreamWS sanity: %s does not produce "%s"' % (cfgname, what))
+    # the handshake line reader (160-byte line buffer, reads of at most 14 bytes) against Stream!HttpScan, every arrival pattern; as it was (NUL one past the
+    # buffer) and the seeded variant (refusal depends on where reads end) are told apart
+    st = V.mc('MC_StreamHttp', 'MC_StreamHttp.cfg', must_fire=['AArrive', 'AReadEvent'], workers=8, timeout=900)
+    if st['violated']:
+        raise V.Infra('MC_StreamHttp violated (specification error):\n' + st['out'][-2500:])
+    wsst.append(st)
+    for cfgname, what in (('MC_StreamHttp_asitwas.cfg', 'Invariant BoundedI is violated'), ('MC_StreamHttp_early.cfg', 'Invariant AtRestI is violated')):
+        neg = V.tlc('MC_StreamHttp', cfgname, workers=4, deque=False, timeout=600)
+        if what not in neg['out']:
+            raise V.Infra('MC_StreamHttp sanity: %s does not produce "%s"' % (cfgname, what))
     cases = gen(tier, rnd)
     jobs = []
     for ci in range(V.NCPU):
@@ -460,7 +470,8 @@ def run(pid, tier):
         states=mcst['distinct'] + sum(x['distinct'] for x in wsst), transitions=mcst['generated'] + sum(x['generated'] for x in wsst), traces_validated_against_impl=nexec - nund,
         samples=[cases[3][1], cases[-1][1]], chunkings_executed=nexec, undecidable_by_model=nund, exhaustive=False,
         rule='MC_Stream: reader = Messages for every chunking of every stream over a small alphabet; MC_StreamWS: the WebSocket frame reader (14-byte read-ahead header buffer, '
-             'leftover, partial payload, drain loop) = WsMessages for every arrival pattern, with the two repaired defects as negative configurations; code binding: streams of 1-6 messages '
+             'leftover, partial payload, drain loop) = WsMessages for every arrival pattern, with the two repaired defects as negative configurations; MC_StreamHttp: the handshake line reader '
+             '= HttpScan for every arrival pattern of handshakes with a 20..175-byte header line; code binding: streams of 1-6 messages '
              '(all length forms incl. 16/32-bit, tokens 0/8/13/20/269/300, ping/pong/empty/CSM/responses/malformed/release/abort, oversize) '
              'cut at every 1-cut, (sampled) 2- and 3-cut placement, one byte per read, empty reads, buffer-size reads and random cuts; server sessions (real accept path) '
              'and client sessions (real connect to the driver\'s listener); WebSocket: upgrade request / 101 response in several valid spellings, header lines of 100..400 bytes '
